@@ -90,10 +90,20 @@ Definition tt_quadratic_const (shape : list nat) (q : Q) : Q * Q * Q :=
 Definition tt_residual (abc : Q * Q * Q) (c : Q) : Q :=
   let '(a, b, c0) := abc in Qred (a * c * c + b * c + c0)%Q.
 
+(* the ranks to the right of each core, as produced by the clipping recursion of TT-SVD: rk is the bond obtained on the left *)
+Fixpoint tt_ranks (rk : nat) (shape ranks : list nat) : list nat :=
+  match shape with
+  | [] => []
+  | s :: rest =>
+      match rest with
+      | [] => [1]
+      | _ :: _ => let cur := Nat.min (Nat.min (rk * s) (prod rest)) (hd 0 ranks) in cur :: tt_ranks cur rest (tl ranks)
+      end
+  end.
 Definition tt_clip (shape rank : list nat) : list nat :=
-  (* allow_overparametrization = False: [1] + [min(rank[i]*s_i, prod shape[i+1:], rank[i+1])] + [1] *)
-  1 :: map (fun i => Nat.min (Nat.min (nth i rank 0 * nth i shape 0) (prod (skipn (S i) shape))) (nth (S i) rank 0))
-           (seq 0 (length shape - 1)) ++ [1].
+  (* allow_overparametrization = False (after 03a63dd): exactly the recursion of TT-SVD,
+     validated[i+1] = min(validated[i]*s_i, prod shape[i+1:], rank[i+1]), boundary ranks 1 *)
+  1 :: tt_ranks 1 shape (tl rank).
 
 Definition validate_tt_rank (shape : list nat) (spec : rspec) (constant : bool) (rd : rounding)
            (allow_over : bool) (c : Q) : res (list nat) :=
@@ -226,22 +236,21 @@ Definition partial_tucker (shape : list nat) (rank modes : list nat) : res (list
     let cols := map (fun p => Nat.min (snd p) (nth (fst p) shape 0)) (combine modes rank) in
     let core := fold_left (fun sh p => set_nth (fst p) (snd p) sh) (combine modes cols) shape in
     Ok (core :: map (fun p => [nth (fst p) shape 0; snd p]) (combine modes cols)).
-(* tucker(fixed_factors=fixed, init=(core, factors) with factor m of shape I_m x rank_m), as the code is: the full per-mode rank
-   list is handed to partial_tucker together with the non-fixed modes, which indexes it by POSITION: updated mode m gets
-   rank[(number of non-fixed modes below m)] instead of rank[m] *)
+(* tucker(fixed_factors=fixed, init=(core, factors) with factor m of shape I_m x rank_m), after the repair 86b5335: the rank is
+   validated and sub-selected for the updated modes; a fixed mode keeps the user's factor (rank_m columns), an updated mode m gets
+   min(rank_m, I_m) columns.  Before 86b5335 (aligned = false, kept for the regression witness) the full per-mode rank list was
+   handed to partial_tucker, which indexes it by POSITION: updated mode m got rank[(number of non-fixed modes below m)]. *)
 Definition pos_nonfixed (fixed : list nat) (m : nat) : nat := length (filter (fun i => negb (memb i fixed)) (seq 0 m)).
 Definition tucker_fixed_cols (aligned : bool) (shape rank fixed : list nat) : list nat :=
   map (fun m => if memb m fixed then nth m rank 0
                 else Nat.min (nth (if aligned then m else pos_nonfixed fixed m) rank 0) (nth m shape 0)) (seq 0 (length shape)).
-Definition all_modes_fixed (shape fixed : list nat) : bool := forallb (fun m => memb m fixed) (seq 0 (length shape)).
 Definition tucker_fixed (shape rank fixed : list nat) : res (list (list nat)) :=
   if negb (length rank =? length shape) then Err
-  else let cols := tucker_fixed_cols false shape rank fixed in
-  Ok (cols :: map (fun p => [fst p; snd p]) (combine shape cols)).
-(* what the property asks for (and the candidate repair build/fix_candidates/C08_tucker_fixed_factors_rank.diff does) *)
-Definition tucker_fixed_intended (shape rank fixed : list nat) : res (list (list nat)) :=
-  if negb (length rank =? length shape) then Err
   else let cols := tucker_fixed_cols true shape rank fixed in
+  Ok (cols :: map (fun p => [fst p; snd p]) (combine shape cols)).
+Definition tucker_fixed_old (shape rank fixed : list nat) : res (list (list nat)) :=
+  if negb (length rank =? length shape) then Err
+  else let cols := tucker_fixed_cols false shape rank fixed in
   Ok (cols :: map (fun p => [fst p; snd p]) (combine shape cols)).
 
 (* ------------------------------------------------------------------ CP family, PARAFAC2, TR-ALS, CMTF *)
@@ -413,3 +422,32 @@ Definition trace_run2 (d : driver2) (nf tol_set : bool) (n_iter_max : nat) (deci
   | Parafac2 => p2_run (list ev) (fun s => s ++ [EvU 0]) (fun s => s ++ [EvN]) nf tol_set n_iter_max decisions []
   | _ => nt_run (list ev) (fun s => s ++ [EvU 0]) (fun s => s ++ [EvN]) nf tol_set n_iter_max decisions []
   end.
+
+(* ------------------------------------------------------------------ a loop skeleton as DATA (read off the source by the harness) *)
+(* init_norm: the state is normalised before the loop when requested; cb_norm / conv_norm: the callback / convergence break is
+   preceded by the normalisation; pre_test_norm: the normalisation follows the sweep BEFORE the tests (parafac2 style);
+   end_norm: it closes the sweep; conv_first: first iteration at which the convergence test is evaluated *)
+Record desc := mkDesc { init_norm : bool; cb_norm : bool; conv_norm : bool; pre_test_norm : bool; end_norm : bool; conv_first : nat }.
+Definition desc_ok (d : desc) : bool := init_norm d && (pre_test_norm d || (cb_norm d && conv_norm d && end_norm d)).
+Section Gen.
+  Variable St : Type.
+  Variables (sweep normalise : St -> St).
+  Definition nif (b nf : bool) (s : St) : St := if b then norm_if St normalise nf s else s.
+  Fixpoint gen_loop (d : desc) (nf tol_set : bool) (it fuel : nat) (decisions : list (bool * bool)) (s : St) : St :=
+    match fuel with
+    | O => s
+    | S fuel' =>
+        let s1 := nif (pre_test_norm d) nf (sweep s) in
+        let dd := hd (false, false) decisions in
+        if fst dd then nif (cb_norm d) nf s1
+        else if tol_set && (conv_first d <=? it) && snd dd then nif (conv_norm d) nf s1
+        else gen_loop d nf tol_set (S it) fuel' (tl decisions) (nif (end_norm d) nf s1)
+    end.
+  Definition gen_run (d : desc) (nf tol_set : bool) (n : nat) (decisions : list (bool * bool)) (s0 : St) : St :=
+    gen_loop d nf tol_set 0 n decisions (nif (init_norm d) nf s0).
+End Gen.
+(* the three hand-written skeletons above as descriptions *)
+Definition cp_desc := mkDesc true true true false true 1.
+Definition nt_desc := mkDesc true true true false true 2.
+Definition p2_desc := mkDesc true true false true false 1.
+Definition lift (ds : list bool) : list (bool * bool) := map (fun b => (false, b)) ds.
